@@ -633,6 +633,33 @@ fn main() {
         Mode::Replay(p) => run_replay(PROP, p, &recheck),
         Mode::Explore(t) => *t,
     };
+    if let Some(l) = cli.rest.iter().position(|a| a == "--miri-len").and_then(|i| cli.rest.get(i + 1)).cloned() {
+        // auxiliary run under Miri (undefined behaviour the oracle cannot see): the same checks,
+        // single-threaded, on every string up to a short length; verdict by exit code only
+        let l: usize = l.parse().unwrap_or(3);
+        let mut n = 0u64;
+        let mut bad = 0u64;
+        for len in 0..=l {
+            for idx in 0..12u64.pow(len as u32) {
+                let s = nth_string(idx, len);
+                let mut h = Hist::new();
+                let v = check_string(&s, &mut h);
+                if !v.is_empty() {
+                    println!("miri pass: {:?}: {:?}", show(&s), v);
+                    bad += 1;
+                }
+                if len >= 2 && s[0] == b'-' && s[1] != b'-' {
+                    if let (_, _, Some(v)) = bfs_string(&s) {
+                        println!("miri pass: {:?}: {:?}", show(&s), v);
+                        bad += 1;
+                    }
+                }
+                n += 1;
+            }
+        }
+        println!("miri pass: {} strings of length <= {} explored, {} oracle failures", n, l, bad);
+        std::process::exit(if bad == 0 { 0 } else { 1 });
+    }
     let rep = Report::new(PROP, tier, cli.seed);
     let max_len = tier.pick(6usize, 7usize);
     let bfs_len = tier.pick(5usize, 6usize);
